@@ -24,6 +24,22 @@ Definition ev_ok (root : bytes) (e : nevent) : Prop := roe root (ev_src e) /\ ro
 Definition item_raws (it : item) : list raw :=
   match it with Single e => [e] | Pair f t => [f; t] end.
 
+(* ------------------------------------------------------------------ any spelling of the root *)
+(* For a root spelled with trailing separators (or "/" itself) paths are [joins root rel], not root ++ "/n1/...".
+   Everything below the first name is again rooted - under the normalised path [join root n] of the top-level entry -
+   so the emitter law carries over; the parent of a top-level entry is the root with its trailing separators
+   stripped. *)
+Definition jrooted (root p : bytes) : Prop :=
+  exists rel, forallb valid_name rel = true /\ p = joins root rel.
+Definition jbelow (root p : bytes) : Prop :=
+  exists n rel, valid_name n = true /\ forallb valid_name rel = true /\ p = joins root (n :: rel).
+(* dirname (join root n) *)
+Definition norm_root (root : bytes) : bytes :=
+  if last_is_sep root then match rstrip_sep root with [] => root | y => y end else root.
+
+Definition jpath_ok (root p : bytes) : Prop := p = [] \/ jrooted root p \/ p = norm_root root.
+
+
 (* masks for which queue_events never reports the parent directory (in particular everything the kernel sends with an
    empty name: IN_ATTRIB|IN_ISDIR, IN_DELETE_SELF, IN_IGNORED about the watched directory itself) *)
 Definition noparent (m : N) : bool :=
@@ -53,6 +69,14 @@ Record path_inv (root : bytes) (r : rstate) : Prop := mkPI {
   pi_pfw : forall wd p, In (wd, p) (pfw r) -> rooted root p;
   pi_wfp : forall p wd, In (p, wd) (wfp r) -> rooted root p;
   pi_mvf : forall c p, In (c, p) (mvf r) -> rooted root p }.
+
+(* the same for a root spelled with trailing separators (statement C19_reader_any_root_full) *)
+Definition jraw_ok (root : bytes) (x : raw) : Prop :=
+  jbelow root (r_path x) \/ (jrooted root (r_path x) /\ noparent (r_mask x) = true).
+Definition jpath_inv (root : bytes) (r : rstate) : Prop :=
+  (forall wd p, In (wd, p) (pfw r) -> jrooted root p) /\
+  (forall p wd, In (p, wd) (wfp r) -> jrooted root p) /\
+  (forall c p, In (c, p) (mvf r) -> jrooted root p).
 
 (* ------------------------------------------------------------------ types *)
 Inductive ptag := TStr | TBytes.
